@@ -548,6 +548,14 @@ impl OwnedLazyValue {
             JsonSlice::FastStr(f) => f.clone(),
         };
 
+        // the literals have no raw form in `LazyRaw` (its type is read off `-`, digit, `"`, `[`, `{`)
+        match raw.as_bytes().first() {
+            Some(b't') => return true.into(),
+            Some(b'f') => return false.into(),
+            Some(b'n') => return ().into(),
+            _ => {}
+        }
+
         if status == HasEsc::None {
             Self(LazyPacked::NonEscStrRaw(raw))
         } else {
